@@ -2,14 +2,36 @@ package rules
 
 import (
 	"fmt"
+
+	"verif/checker/eng"
 )
+
+var debugHooks = map[string]func(*Ctx){}
 
 // Dump prints internal tables (development aid): GTCHECK_DUMP=refwrites.
 func Dump(c *Ctx, what string) {
+	if h, ok := debugHooks[what]; ok {
+		h(c)
+		return
+	}
 	switch what {
 	case "refwrites":
 		for _, w := range refWrites(c) {
 			fmt.Printf("%-75s %-24s ref=%-45q dyn=%v %s\n", fname(w.Fn), w.Method, w.Ref, w.Dynamic, c.Rel(w.Call.Pos()))
+		}
+	}
+}
+
+func init() {
+	debugHooks["roots-vrfr-att"] = func(c *Ctx) {
+		fn := c.Func(fnVRFR)
+		for _, k := range eng.CallsTo(fn, false, "internal/policy.verifyEntry") {
+			for _, root := range eng.Roots(k.Arg(3)) {
+				fmt.Printf("root: %T %s\n", root, root.String())
+				if src, _, ok := eng.RootCall(root); ok {
+					fmt.Printf("   call %s arg1=%T %s type=%s\n", src.Name(), src.Arg(1), src.Arg(1), src.Arg(1).Type())
+				}
+			}
 		}
 	}
 }
